@@ -3,6 +3,7 @@ use crate::kfam::{run, Opts, BASE};
 use crate::c08::{G_ALU, G_MEM, G_SYS, CLASS_IRQ};
 const O: Opts = Opts { a_depth: true, ..BASE };
 crate::kstep_harnesses! {
+    c27_frames_all = run(Opts { class: crate::c08::CLASS_ANY, debug_frames: true, ..O });
     c27_depth_all = run(Opts { class: crate::c08::CLASS_ANY, ..O });
     c27_depth_alu = run(Opts { class: G_ALU, ..O });
     c27_depth_sys = run(Opts { class: G_SYS, ..O });
